@@ -188,6 +188,7 @@ type Engine struct {
 	funcsDone []string
 	engineErrors []string
 	curAbstracted *bool
+	immutableHeap map[string]bool // heap array names of fields declared immutable
 }
 
 func (e *Engine) logAbs(format string, a ...interface{}) {
@@ -505,6 +506,7 @@ func (x *fnCtx) setElemArr(st *State, elem types.Type, ref *Term, leaf int, nv *
 // newRef allocates a fresh reference distinct from every previously known one.
 func (x *fnCtx) newRef(st *State, hint string) *Term {
 	r := Fresh(hint, SInt)
+	allocSyms[r] = true
 	alloc := x.heapArr(st, "$alloc", ArrSort(SInt, SBool))
 	st.assume(Not(Select(alloc, r)))
 	st.assume(Lt(IntLit(0), r))
@@ -559,10 +561,35 @@ func (x *fnCtx) havocHeap(st *State, name string) {
 func (x *fnCtx) havocAllHeap(st *State, why string) {
 	x.eng.logAbs("%s: havoc of the whole heap (%s)", x.short, why)
 	alloc := st.heap.m["$alloc"]
+	old := st.heap
 	epochCounter++
 	st.heap = &Heap{m: map[string]*Term{}, epoch: epochCounter}
 	if alloc != nil {
 		st.heap.m["$alloc"] = alloc
+	}
+	// ghost state that only the engine updates survives
+	for k, v := range old.m {
+		if strings.HasPrefix(k, "$lock") || strings.HasPrefix(k, "$visited") {
+			st.heap.m[k] = v
+		}
+	}
+	// fields declared immutable keep their value for objects that already exist
+	for name, srt := range heapSorts {
+		if !x.eng.immutableHeap[name] {
+			continue
+		}
+		idxS, _ := srt.ArrParts()
+		if idxS != SInt {
+			continue
+		}
+		before := old.get(name, srt)
+		after := st.heap.get(name, srt)
+		if alloc == nil {
+			alloc = old.get("$alloc", ArrSort(SInt, SBool))
+			st.heap.m["$alloc"] = alloc
+		}
+		bk := BVar("r", SInt)
+		st.assume(Forall([]*Term{bk}, Implies(Select(alloc, bk), Eq(Select(after, bk), Select(before, bk))), Select(after, bk)))
 	}
 	x.writes["*"] = true
 }
